@@ -223,6 +223,42 @@ def make(I):
         """numeric value denoted by one numeric text piece"""
         return B.b_float(I, Rope([Fmt(piece[1], piece[2], piece[3])]))
 
+
+    def uf_text(I, name, text):
+        """an opaque text derived from `text` (e.g. its gzip-compressed bytes): equal only to itself"""
+        return Rope([Fmt((name, id(text)), None, 'opaque')])
+
+    def stub(I, dotted, replacement):
+        """replace a function of the code under verification by a stub for the rest of this path (used to observe what a
+        caller passes on, e.g. that read() hands the file content to parse())"""
+        fn = I.get(dotted)
+        I.call_hooks[fn.qualname] = (lambda I2, f, args, kwargs: I2.call(replacement, list(args), kwargs))
+        if not hasattr(I.ctx, 'stubs'):
+            I.ctx.stubs = []
+        I.ctx.stubs.append(fn.qualname)
+        return True
+
+
+    def split_first_line(I, text):
+        """(first line including its newline, rest) of a possibly symbolic text (numbers never contain a newline)"""
+        if isinstance(text, str):
+            i = text.find('\n')
+            return (text, '') if i == -1 else (text[:i + 1], text[i + 1:])
+        head = []
+        parts = list(text.parts)
+        for k, p in enumerate(parts):
+            if isinstance(p, str) and '\n' in p:
+                i = p.find('\n')
+                first = Rope(head + [p[:i + 1]])
+                rest = Rope([p[i + 1:]] + parts[k + 1:])
+                f = ''.join(first.parts) if all(isinstance(x, str) for x in first.parts) else first
+                r = ''.join(rest.parts) if all(isinstance(x, str) for x in rest.parts) else rest
+                return (f, r)
+            if not isinstance(p, str) and p.kind not in ('f', 'exact', 'fmt-g'):
+                raise Unsupported('line split of opaque text')
+            head.append(p)
+        return (text, '')
+
     def arr_from_fn(I, shape, fn, dtype='float'):
         shape = tuple(shape) if not isinstance(shape, ShapeTag) else shape
         return Arr(shape, lambda idx: I.call(fn, list(idx), {}), dtype)
@@ -238,6 +274,8 @@ def make(I):
         return isinstance(v, Arr)
 
     def rope_fmt(I, value, prec, kind='f'):
+        if prec is not None and (isinstance(prec, bool) or not isinstance(prec, int)):
+            I.throw('TypeError', 'precision must be an integer')
         return Rope([Fmt(value, prec, kind)])
 
     def ghost(I):
@@ -259,7 +297,7 @@ def make(I):
     ns = dict(fresh_real=F('fresh_real', fresh_real), fresh_int=F('fresh_int', fresh_int), fresh_bool=F('fresh_bool', fresh_bool),
               fact=F('fact', fact), assume=F('assume', assume), implies=F('implies', implies), ite=F('ite', ite),
               oblige=F('oblige', oblige), event=F('event', event), is_symbolic=F('is_symbolic', is_symbolic),
-              unsupported=F('unsupported', unsupported), uf_real=F('uf_real', uf_real), uf=F('uf', uf), is_text=F('is_text', is_text), exact_number_text=F('exact_number_text', exact_number_text), piece_value=F('piece_value', piece_value), text_equal=F('text_equal', text_equal), abstract_path_vertices=F('abstract_path_vertices', abstract_path_vertices), abstract_path_codes=F('abstract_path_codes', abstract_path_codes), abstract_outline_vertices=F('abstract_outline_vertices', abstract_outline_vertices), abstract_outline_codes=F('abstract_outline_codes', abstract_outline_codes), is_selection=F('is_selection', is_selection), selection_parts=F('selection_parts', selection_parts), is_nonfinite=F('is_nonfinite', is_nonfinite), lemma=F('lemma', lemma), general=F('general', general), arr_like=F('arr_like', arr_like), is_bool_scalar=F('is_bool_scalar', is_bool_scalar), is_bool_array=F('is_bool_array', is_bool_array), dtype_of=F('dtype_of', dtype_of), uf_bool=F('uf_bool', uf_bool),
+              unsupported=F('unsupported', unsupported), uf_real=F('uf_real', uf_real), uf=F('uf', uf), split_first_line=F('split_first_line', split_first_line), uf_text=F('uf_text', uf_text), stub=F('stub', stub), is_text=F('is_text', is_text), exact_number_text=F('exact_number_text', exact_number_text), piece_value=F('piece_value', piece_value), text_equal=F('text_equal', text_equal), abstract_path_vertices=F('abstract_path_vertices', abstract_path_vertices), abstract_path_codes=F('abstract_path_codes', abstract_path_codes), abstract_outline_vertices=F('abstract_outline_vertices', abstract_outline_vertices), abstract_outline_codes=F('abstract_outline_codes', abstract_outline_codes), is_selection=F('is_selection', is_selection), selection_parts=F('selection_parts', selection_parts), is_nonfinite=F('is_nonfinite', is_nonfinite), lemma=F('lemma', lemma), general=F('general', general), arr_like=F('arr_like', arr_like), is_bool_scalar=F('is_bool_scalar', is_bool_scalar), is_bool_array=F('is_bool_array', is_bool_array), dtype_of=F('dtype_of', dtype_of), uf_bool=F('uf_bool', uf_bool),
               arr_from_fn=F('arr_from_fn', arr_from_fn), arr_at=F('arr_at', arr_at), is_array=F('is_array', is_array),
               cos=F('cos', N.np_cos), sin=F('sin', N.np_sin), sqrt=F('sqrt', lambda I, x: B.sqrt_(I, x)), PI=N.PI,
               deepcopy=F('deepcopy', lambda I, v: I.ext_modules and __import__('pyvc.stdlib_models', fromlist=['x']).deepcopy(I, v)),
